@@ -182,6 +182,17 @@ func (f *FakeConsul) WaitCatalogHeld(n int) {
 	f.mu.Unlock()
 }
 
+// WaitCatalogHeldOrParked blocks until n catalog queries are being held (true) or the health
+// watcher is parked again at the current index without having asked the catalog (false).
+func (f *FakeConsul) WaitCatalogHeldOrParked(n int) bool {
+	f.mu.Lock()
+	defer f.mu.Unlock()
+	for f.heldCat < n && f.parkedH[f.hidx] == 0 && !f.closed {
+		f.cond.Wait()
+	}
+	return f.heldCat >= n
+}
+
 func (f *FakeConsul) ReleaseCatalog() {
 	f.mu.Lock()
 	f.holdCat = 0
